@@ -1,5 +1,8 @@
 import STProofs.PPolyLookup
-/-! # C03 — lookup is the half-open-interval piece, clamped; the hint never matters; caches never change a value -/
+import STProofs.PPolyRoutes
+/-! # C03 — lookup is the half-open-interval piece, clamped; the hint never matters; caches never change a value;
+hinted = plain (`evaluateHint_eq`) and batch = pointwise (`evaluateBatch_eq`) for every cache state.
+Not a theorem: evaluation of the derivative trajectory = higher-order evaluation (decided by the correspondence and the exact oracle). -/
 open ST
 example : specIdx ([0, 1, 3] : List ℚ) 1 = 1 ∧ specIdx ([0, 1, 3] : List ℚ) (1/2) = 0 ∧ specIdx ([0, 1, 3] : List ℚ) 7 = 1 ∧ specIdx ([0, 1, 3] : List ℚ) (-2) = 0 := by
   simp [specIdx, countLE]; norm_num
